@@ -1,11 +1,13 @@
 \* sanity: the as-built table MUST violate NoOpenTxAtReturn (CredUpsert shadowed err)
 CONSTANTS
   DEV_CredUpsertShadowedErr = TRUE
+  DEV_PgCredUpsertShadowedErr = TRUE
   DEV_UsersCreateCompensates = FALSE
   DEV_TopicsCreateTwoTx = FALSE
   DEV_DeleteListThreeTx = FALSE
   Universe = "table"
   MaxStmts = 1
+  Dialect = "mysql"
   GenShadow = FALSE
 SPECIFICATION Spec
 INVARIANTS InvNoOpenTxAtReturn
